@@ -1,5 +1,6 @@
 mod common;
 mod stream;
+mod sign;
 mod prims;
 mod pwstr;
 mod untrusted;
@@ -37,7 +38,9 @@ fn main() {
         eprintln!("usage: conform <command> [args]");
         std::process::exit(2);
     }
-    common::silence_panics();
+    if std::env::var("CONFORM_PANIC").is_err() {
+        common::silence_panics();
+    }
     common::sodium_init();
     let rest = &args[1..];
     match args[0].as_str() {
@@ -55,6 +58,8 @@ fn main() {
         "prims-sweep-c12" => prims::cmd_sweep_c12(rest),
         "prims-sweep-c05" => prims::cmd_sweep_c05(rest),
         "prims-sweep-c13" => prims::cmd_sweep_c13(rest),
+        "prims-sweep-c09" => prims::cmd_sweep_c09(rest),
+        "sign" => sign::cmd_sign(rest),
         "inc-splits" => inchash::cmd_splits(rest),
         "inc-replay" => inchash::cmd_replay(rest),
         "inc-trace" => inchash::cmd_trace(rest),
